@@ -553,7 +553,7 @@ pub fn eval_all(data_dir: &Path, ws: &Path, image: &DirImage, drop_caches: bool,
 /// disagreement (preferring ones not in `known`).
 /// State of a thread's JSONL sidecars relative to truth: which of them are well-formed (every
 /// line a frame of this thread, in truth order) yet incomplete.
-pub fn stale_wellformed_sidecars(image: &DirImage, truth: &Truth, thread: &str) -> Vec<&'static str> {
+pub fn stale_wellformed_sidecars(image: &DirImage, truth: &Truth, thread: &str) -> Vec<String> {
     let frames = truth.thread(thread);
     let expect = |types: &[&str]| -> Vec<String> {
         frames
@@ -599,7 +599,10 @@ pub fn stale_wellformed_sidecars(image: &DirImage, truth: &Truth, thread: &str) 
         let mut it = want.iter();
         let subseq = ids.iter().all(|id| it.any(|w| w == id));
         if subseq {
-            out.push(label);
+            // a proper prefix passes seq-contiguity checks; any other subsequence (suffix only,
+            // gaps) is what the contiguity checks are there to reject
+            let shape = if want.starts_with(&ids) { "prefix" } else { "other" };
+            out.push(format!("{label}={shape}"));
         }
     }
     out
@@ -608,7 +611,7 @@ pub fn stale_wellformed_sidecars(image: &DirImage, truth: &Truth, thread: &str) 
 fn explain(image: &DirImage, truth: &Truth, thread: &str, fault_log: &[(String, String)]) -> String {
     let stale = stale_wellformed_sidecars(image, truth, thread);
     if !stale.is_empty() {
-        return "stale_wellformed_sidecar".into();
+        return format!("stale_wellformed_sidecar[{}]", stale.join(","));
     }
     let is_index = |what: &str| what.contains(".seek.") || what.contains(".messages.") || what.contains(".msgord.") || what.contains(".comp.idx.");
     let mine: Vec<&String> = fault_log.iter().filter(|(t, _)| t == thread).map(|(_, w)| w).collect();
